@@ -2,6 +2,7 @@
 mod c03;
 mod c07;
 mod c15;
+mod c16;
 mod c20;
 mod macroprops;
 #[path = "/repo/lexpr-macros/src/value.rs"]
@@ -39,6 +40,11 @@ fn main() {
     }
     let dir = PathBuf::from(&args[4]);
     std::fs::create_dir_all(&dir).ok();
+    if id == "C16" && tier == "child" {
+        // harness C16 child <op> unused <n> <dotted>
+        c16::child(&args[3], args[5].parse().unwrap(), args[6] == "1");
+        return;
+    }
     if id == "C03" && tier == "deepchild" {
         // harness C03 deepchild <kind> unused <n> <api>
         c03::deep_child(args[3].parse().unwrap(), args[5].parse().unwrap(), &args[6]);
@@ -60,6 +66,7 @@ fn main() {
         "C19" => parseprops::run_c19(tier, seed, &mut out),
         "C04" | "C14" | "C18" => serdeprops::run(id, tier, seed, &mut out),
         "C09" => macroprops::run(tier, seed, &mut out),
+        "C16" => c16::run(tier, seed, &mut out),
         "C03" => c03::run(tier, seed, &mut out),
         "C07" => c07::run(tier, seed, &mut out),
         "C20" => c20::run(tier, seed, &mut out),
